@@ -12,6 +12,7 @@ import FontVerif.Lemmas.GraphSer
 import FontVerif.Lemmas.GraphPack
 import FontVerif.Lemmas.GraphSort
 import FontVerif.Lemmas.GraphSort2
+import FontVerif.Lemmas.GraphIso3
 set_option linter.unusedVariables false
 namespace FontVerif.C05
 open FontVerif FontVerif.Graph
@@ -310,21 +311,48 @@ theorem pack_order_topological_partial (g g' : Graph) (fresh fresh' : List Nat)
 
 /-! ### duplication / re-pointing is invisible to a reader -/
 
-/-
-`pack_preserves_unfold` (FULL STATEMENT, NOT PROVED): `packObjects g fresh = some (ok, g', fresh')`
-with `fresh` duplicate free and disjoint from the ids of `g` ⇒ `∀ fuel, unfold g' fuel g'.root =
-unfold g fuel g.root` (isolation, duplication, link re-pointing and orphan removal never change
-what a reader sees from the root).  Proved below: the abstract half — any re-arrangement that admits
-a renaming `φ` of the new objects onto old objects with equal bytes and equal link shapes up to `φ`
-(what `duplicate_subgraph` and the re-pointing loops of `isolate_subgraph_hb` construct, with
-`φ copy = original`) leaves every unfolding unchanged.  Missing: that `isolateSubgraph`,
-`assignSpaces`, `tryIsolating`, `removeOrphans` maintain such a `φ`.  The harness checks the full
-statement on the real code for every generated graph (oracle `walk-input-graph`: the output is
-walked against the *input* objects).
--/
-theorem pack_preserves_unfold_partial (g' g : Graph) (φ : Nat → Nat) (hsim : Simulates g' g φ)
+/-- The abstract half: any re-arrangement that admits a renaming `φ` of the new objects onto old
+objects with equal bytes and equal link shapes up to `φ` leaves every unfolding unchanged. -/
+theorem renaming_preserves_unfold (g' g : Graph) (φ : Nat → Nat) (hsim : Simulates g' g φ)
     (hroot : φ g'.root = g.root) (fuel : Nat) : unfold g' fuel g'.root = unfold g fuel g.root := by
   rw [unfold_simulation g' g φ hsim fuel g'.root, hroot]
+
+/-- **`pack_objects` never changes what a reader sees from the root** — whatever it returns
+(success or failure), through Kahn / shortest-distance sorting, `assign_spaces_hb`, any number of
+`isolate_subgraph_hb` / `duplicate_subgraph` rounds with their id re-mapping and link re-pointing,
+`try_isolating_subgraphs`, `remove_orphans` and the retry loop: the unfolding of the final graph from
+its root equals the unfolding of the input graph from its root, to every depth.  Hypothesis: the ids
+`ObjectId::next()` will hand out are distinct and not in use in the input graph (not the root, not
+an object id, not a link target, not a cached parent).  Proof: the surgery maintains a renaming
+`φ` (copy ↦ original) that is a simulation (Lemmas/GraphIso*.lean). -/
+theorem pack_preserves_unfold (g g' : Graph) (fresh fresh' : List Nat) (ok : Bool)
+    (hnd : fresh.Nodup) (hroot : g.root ∉ fresh)
+    (hun : ∀ n ∈ fresh, g.objects.find? n = none ∧ (∀ x, ∀ l ∈ (g.obj x).links, l.target ≠ n) ∧
+      (∀ x, ∀ p ∈ (g.node x).parents, p.1 ≠ n))
+    (h : packObjects g fresh = some (ok, g', fresh')) (fuel : Nat) :
+    unfold g' fuel g'.root = unfold g fuel g.root := by
+  obtain ⟨φ, hsim, hr⟩ := packObjects_simulates g fresh ok g' fresh' ⟨hnd, hroot, hun⟩ h
+  exact renaming_preserves_unfold g' g φ hsim hr fuel
+
+/-- the same for a graph as `Graph::from_objects` builds it (no cached parents yet): the fresh ids
+only have to avoid the root, the object ids and the link targets. -/
+theorem pack_preserves_unfold_fromObjects (objs : Map Obj) (root : Nat) (g' : Graph) (fresh fresh' : List Nat)
+    (ok : Bool) (hnd : fresh.Nodup) (hroot : root ∉ fresh)
+    (hk : ∀ kv ∈ objs, kv.1 ∉ fresh ∧ ∀ l ∈ kv.2.links, l.target ∉ fresh)
+    (h : packObjects (Graph.fromObjects objs root) fresh = some (ok, g', fresh')) (fuel : Nat) :
+    unfold g' fuel g'.root = unfold (Graph.fromObjects objs root) fuel root := by
+  obtain ⟨φ, hsim, hr⟩ := packObjects_simulates _ fresh ok g' fresh'
+    (freshFor_fromObjects objs root fresh hnd hroot hk) h
+  exact renaming_preserves_unfold g' _ φ hsim hr fuel
+
+/-- non-vacuity: 0 ═32⇒ 1 (65 535 bytes) → 2 ← 0 (16-bit): `pack_objects` succeeds only by duplicating
+object 2 (copy 3, drawn from the supply `[3, 4]`) for the 32-bit sub-space, and re-points the link of 1. -/
+example :
+    let g := Graph.fromObjects [(0, ⟨10, [], [⟨0, 4, 1, 0⟩, ⟨4, 2, 2, 0⟩]⟩), (1, ⟨65535, [], [⟨0, 2, 2, 0⟩]⟩),
+      (2, ⟨10, [], []⟩)] 0
+    (packObjects g [3, 4]).map (fun r => (r.1, r.2.1.objects.keys, (r.2.1.obj 1).links.map (·.target), r.2.2))
+      = some (true, [0, 1, 2, 3], [3], [4]) := by
+  decide
 
 /-- non-vacuity: 0→{1,2}, 1→2 with 2 duplicated as 3 for the link from 1 (the shape of graph.rs's
 `duplicate_shared_root_subgraph`); `φ 3 = 2` is a simulation and the unfoldings agree. -/
